@@ -58,8 +58,8 @@ class LazyOpenMachine(Machine):
         return []
 
 
-def run(ctx):
-    chk = Check('C04', ctx)
+def run(ctx, host=None):
+    chk = host.sub('C04') if host is not None else Check('C04', ctx)
     prog, K, E = ctx.prog, ctx.kinds, ctx.effects
     Pw = chk.rule('C04.Pw', 'writer: bytes go to the sandbox, flush+close precede one atomic rename/replace into loose/', 1)
     Pw2 = chk.rule('C04.Pw2', 'nobody removes directories below loose/ or the sandbox (writers rely on them between mkdir and rename)', 1)
@@ -271,6 +271,11 @@ def run(ctx):
     from .common import transaction_premises
     RDB = chk.rule('C04.Pdb', 'transaction premises: rows become visible to other connections only at COMMIT; WAL snapshots (explicit BEGIN, no autocommit, only PRAGMA journal_mode=wal)', 1)
     transaction_premises(ctx, chk, RDB)
+
+    # rules of other properties that are necessary conditions of this one too: long-open reader handles are in the quantifier: the freshness rules of C08 are premises too
+    if host is None:
+        from ..report import host_modules
+        host_modules(chk, ctx, ['C08'])
 
     return chk.finish(
         explanation=('Decides, from the source, the code-side premises of the protocol\'s safety argument (DESIGN 5/C04): writer publishes complete files '
